@@ -11,6 +11,7 @@ package dnssec
 
 import (
 	"encoding/base64"
+	"sort"
 	"errors"
 	"fmt"
 	"math/rand"
@@ -59,39 +60,6 @@ func vC01Err(err error) string {
 		return "(Some EPack)"
 	}
 	return "(Some (EOracle 6))"
-}
-
-// ---- forced key-tag collisions: pairs of Ed25519 seeds whose DNSKEY RDATA (flags 256,
-// protocol 3, algorithm 15) have the same tag, found by search ----
-
-type vC01Pool struct {
-	pairs [][2][32]byte
-}
-
-func vC01BuildPool(r *rand.Rand, n int) *vC01Pool {
-	w := vC01NewW(r)
-	byTag := map[uint16][][32]byte{}
-	p := &vC01Pool{}
-	for i := 0; i < n; i++ {
-		var seed [32]byte
-		r.Read(seed[:])
-		k := w.keyFromSeed("x.", 256, dns.ED25519, seed)
-		t := KeyTag(k.key)
-		for _, other := range byTag[t] {
-			p.pairs = append(p.pairs, [2][32]byte{other, seed})
-		}
-		byTag[t] = append(byTag[t], seed)
-	}
-	return p
-}
-
-func (w *vC01W) keyFromSeed(zone string, flags uint16, alg uint8, seed [32]byte) *vC01Key {
-	sub := rand.New(rand.NewSource(int64(seed[0]) | int64(seed[1])<<8 | int64(seed[2])<<16 | int64(seed[3])<<24 | int64(seed[4])<<32 | int64(seed[5])<<40 | int64(seed[6])<<48))
-	save := w.r
-	w.r = sub
-	k := w.newKey(zone, flags, alg)
-	w.r = save
-	return k
 }
 
 type vC01Sig struct {
@@ -197,7 +165,21 @@ func vC01GenSig(r *rand.Rand, pool *vC01Pool, tr *vC01Trace) {
 			kinds = append(kinds, "bad-synthesis")
 			altered[strings.ToLower(vC01Sub("x.d", zone))+"|5"] = true
 		}
-		c := &dns.CNAME{Hdr: dns.RR_Header{Name: vC01Sub("x.d", zone), Rrtype: dns.TypeCNAME, Class: dns.ClassINET, Ttl: 300}, Target: target}
+		cOwner := vC01Sub("x.d", zone)
+		switch r.Intn(5) {
+		case 0: // an unsigned CNAME AT the DNAME owner pointing at the DNAME target: not a synthesis (RFC 6672: names BELOW the owner)
+			cOwner, target = vC01Sub("d", zone), "t.other."
+			kinds = append(kinds, "cname-at-dname-owner")
+			altered[strings.ToLower(cOwner)+"|5"] = true
+		case 1: // two labels below the owner
+			cOwner, target = vC01Sub("y.x.d", zone), "y.x.t.other."
+			kinds = append(kinds, "cname-two-below")
+		case 2: // a sibling of the owner
+			cOwner, target = vC01Sub("x.e", zone), "x.t.other."
+			kinds = append(kinds, "cname-beside-dname")
+			altered[strings.ToLower(cOwner)+"|5"] = true
+		}
+		c := &dns.CNAME{Hdr: dns.RR_Header{Name: cOwner, Rrtype: dns.TypeCNAME, Class: dns.ClassINET, Ttl: 300}, Target: target}
 		ans = append(ans, c)
 		kinds = append(kinds, "dname")
 	case 4: // wildcard expansion
@@ -459,7 +441,8 @@ func vC01GenSig(r *rand.Rand, pool *vC01Pool, tr *vC01Trace) {
 			}
 		}
 	}
-	if len(ops) == 0 && len(kinds) > 0 && !ok && len(keyList) >= 2 && !vC01Has(kinds, "bad-synthesis") && !vC01Has(kinds, "only-nonzone-clone") {
+	if len(ops) == 0 && len(kinds) > 0 && !ok && len(keyList) >= 2 && !vC01Has(kinds, "bad-synthesis") && !vC01Has(kinds, "only-nonzone-clone") &&
+		!vC01Has(kinds, "cname-at-dname-owner") && !vC01Has(kinds, "cname-beside-dname") {
 		goFail = "genuine message rejected: " + fmt.Sprint(err)
 	}
 	k := "sig-reject"
@@ -627,7 +610,29 @@ func vC01GenDS(r *rand.Rand, pool *vC01Pool, tr *vC01Trace) {
 	}
 	unsup, err := VerifyDSWithWork(keyMap, dsset, nil)
 	rk := vC01RankAll(dsset)
+	_ = rk
 	body := fmt.Sprintf("CaseDS %s %s %s %s", w.coqKeys(keys), w.coqRRs(dsset, rk), vC01Bool(unsup), vC01Err(err))
+	// the keys DSMatchedKeys vouches for on the same input
+	{
+		got := DSMatchedKeys(keyMap, dsset, nil)
+		seen := map[int]bool{}
+		var mats []int
+		for _, bucket := range got {
+			for _, kk := range bucket {
+				if m := w.mat(kk.PublicKey); !seen[m] {
+					seen[m] = true
+					mats = append(mats, m)
+				}
+			}
+		}
+		sort.Ints(mats)
+		var ms []string
+		for _, m := range mats {
+			ms = append(ms, fmt.Sprint(m))
+		}
+		tr.emit(map[string]any{"k": fmt.Sprintf("ds-matched-keys:%d", len(mats)), "coq": w.wrap(fmt.Sprintf("CaseMatched %s %s [%s]", w.coqKeys(keys), w.coqRRs(dsset, rk), strings.Join(ms, ";"))), "nontrivial": len(dsset) > 0,
+			"desc": map[string]any{"keys": vC01Pres(vC01KeysRR(keys)), "ds": vC01Pres(dsset), "kinds": kinds, "matched_materials": mats}})
+	}
 	k := "ds-reject"
 	if err == nil {
 		k = "ds-match"
@@ -818,7 +823,7 @@ func TestVerifC01Dnssec(t *testing.T) {
 	seed := int64(vC01EnvInt("VERIF_SEED", 1))
 	n := vC01EnvInt("VERIF_N", 600)
 	r := rand.New(rand.NewSource(seed*7919 + 101))
-	pool := vC01BuildPool(rand.New(rand.NewSource(seed+5)), 1500)
+	pool := vC01BuildPool(rand.New(rand.NewSource(seed+5)), 1500, 256)
 	for i := 0; i < n; i++ {
 		switch {
 		case i%10 < 6:
